@@ -42,6 +42,7 @@ type Config struct {
 	NameOverrides               map[string]string     `yaml:"name_overrides,omitempty"`
 	Validators                  map[string][]string   `yaml:"validators,omitempty"`
 	PlanModifiers               map[string][]string   `yaml:"plan_modifiers,omitempty"`
+	SchemaTypes                 map[string]SchemaType `yaml:"schema_types,omitempty"`
 	TimeType                    *SchemaType           `yaml:"time_type,omitempty"`
 	DurationType                *SchemaType           `yaml:"duration_type,omitempty"`
 	InjectedFields              map[string][]Injected `yaml:"injected_fields,omitempty"`
